@@ -80,7 +80,25 @@ def idle_violations(spec, obs, sc_idx=0):
     rmap = spec.res_map()
     gran = timedelta(seconds=obs.gran)
     edges = rules.all_edges(spec)
-    back_closure = findings._backward_closure(spec)
+    back_closure = findings._backward_closure(spec)  # over-approximation: who *may* run backward (used to skip)
+    # under-approximation: who *must* run backward by the documented propagation - leaf predecessors reached
+    # from an anchor (a declared-ALAP leaf with its own end date) over edges written on leaves themselves;
+    # container edges and inherited edges are left out, an ASAP task with its own start ends the chain
+    strict = set()
+    _all = rules.all_edges(spec)
+    work = [p for p, t in spec.iter_tasks() if not t.children and t.end is not None and rules.explicit_backward(spec, p)]
+    seen = set(work)
+    while work:
+        p = work.pop()
+        for e in _all.get(p, []):
+            q, kind = e[0], e[3]
+            if not kind.startswith("own-") or q not in tmap or tmap[q].children or q in seen:
+                continue
+            if tmap[q].start is not None and not rules.explicit_backward(spec, q):
+                continue
+            seen.add(q)
+            strict.add(q)
+            work.append(q)
     # successors (for the backward mirror)
     succ = {}
     for p, es in edges.items():
@@ -168,10 +186,13 @@ def idle_violations(spec, obs, sc_idx=0):
         first, last, secs = span
         name = ".".join(p)
         declared_back = rules.explicit_backward(spec, p)
-        if not declared_back and p in back_closure:
+        if not declared_back and p in strict:
             # documented ALAP propagation: predecessors of an anchored ALAP task are scheduled backward, too
             classes.add("propagated_alap")
             declared_back = True
+        elif not declared_back and p in back_closure:
+            classes.add("propagated_alap_not_judged")
+            continue
         if not declared_back:
             # ---- forward ----------------------------------------------------------------
             if t.start is not None:
